@@ -45,3 +45,90 @@ def race_stage(pid, tier, seed, BUILD, GOENV, known):
     if rc not in (0, 3, 66) or (not m and not races):
         res["violations"].append({"kind": "broken-obligation", "what": "race driver failed", "detail": out[-2000:]})
     return res
+
+
+ALLOC_K = 2048      # bytes of TotalAlloc allowed per input byte (measured maximum on the clean tree: ~520, deep nesting)
+ALLOC_C = 1 << 16
+
+
+def hostile_hsms_stage(pid, tier, seed, BUILD, GOENV, known):
+    """C07: hostile inputs in a worker subprocess; TotalAlloc must stay below a
+    fixed linear function of the input length; no panic may escape; an abort of
+    the worker is a violation unless it is the listed known finding."""
+    corr = os.path.join(BUILD, "corr")
+    res = {"violations": [], "known_lines": []}
+    inputs = os.path.join(BUILD, "hostile-%s-%d.txt" % (pid, os.getpid()))
+    rc, out = _run("%s hostile-hsms -seed %d -tier %s > %s" % (corr, seed, tier, inputs), GOENV, 1800)
+    if rc != 0:
+        res["violations"].append({"kind": "broken-obligation", "what": "hostile input generator failed", "detail": out[-1000:]})
+        return res
+    kinds, hexes = [], []
+    for line in open(inputs):
+        k, h = line.rstrip("\n").split(" ", 1)
+        kinds.append(k)
+        hexes.append(h)
+    os.remove(inputs)
+    # the worker gets the inputs on stdin; a limit on its address space keeps a
+    # runaway allocation from taking the machine down
+    pos = 0
+    measured = 0
+    worst = (0.0, 0, 0, "")
+    dist = {}
+    t0 = time.time()
+    restarts = 0
+    while pos < len(hexes) and restarts < 20:
+        chunk = "\n".join(hexes[pos:]) + "\n"
+        p = subprocess.Popen("ulimit -v 12000000; exec %s worker-hsms" % corr, shell=True, env=GOENV,
+                             stdin=subprocess.PIPE, stdout=subprocess.PIPE, stderr=subprocess.PIPE, text=True, errors="replace")
+        try:
+            so, se = p.communicate(chunk, timeout=1500 if tier == "quick" else 14000)
+        except subprocess.TimeoutExpired:
+            p.kill()
+            so, se = p.communicate()
+            se += "\n[watchdog timeout]"
+        done_here = 0
+        for line in so.splitlines():
+            f = line.split()
+            if f and f[0] == "done":
+                n, alloc, st = int(f[1]), int(f[2]), int(f[3])
+                i = pos + done_here
+                done_here += 1
+                measured += 1
+                dist[kinds[i]] = dist.get(kinds[i], 0) + 1
+                ratio = alloc / (n + 1.0)
+                if ratio > worst[0]:
+                    worst = (ratio, n, alloc, kinds[i])
+                if st == 2:
+                    res["violations"].append({"kind": "counterexample", "source": "worker", "what": "a panic escaped hsms.Parse",
+                                              "detail": "input (%s, %d bytes): %s" % (kinds[i], n, hexes[i][:400]), "case": "HP " + hexes[i] if n < 5000 else None})
+                elif alloc > ALLOC_K * n + ALLOC_C:
+                    res["violations"].append({"kind": "counterexample", "source": "worker", "what": "allocation not linear in the input",
+                                              "detail": "input (%s, %d bytes) allocated %d bytes (bound %d*len+%d): %s" % (kinds[i], n, alloc, ALLOC_K, ALLOC_C, hexes[i][:400]),
+                                              "case": "HP " + hexes[i] if n < 5000 else None})
+        pos += done_here
+        if p.returncode != 0 and pos < len(hexes):
+            # the worker died on input pos
+            res["violations"].append({"kind": "counterexample", "source": "worker", "what": "the process aborted while decoding",
+                                      "detail": "input (%s, %d bytes): %s ... stderr: %s" % (kinds[pos], len(hexes[pos]) // 2, hexes[pos][:300], se[-600:]),
+                                      "case": "HP " + hexes[pos] if len(hexes[pos]) < 10000 else None})
+            pos += 1
+            restarts += 1
+        elif p.returncode != 0:
+            break
+    res["evaluations"] = measured
+    res["distinct"] = len(set(hexes))
+    res["worker_inputs"] = measured
+    res["worker_s"] = round(time.time() - t0, 1)
+    res["alloc_bound"] = "TotalAlloc <= %d * len + %d" % (ALLOC_K, ALLOC_C)
+    res["worst_alloc_per_byte"] = {"ratio": round(worst[0], 1), "len": worst[1], "alloc": worst[2], "kind": worst[3]}
+    res["input_kinds"] = dist
+    res["samples"] = ["hostile input (%s): %s" % (kinds[i], hexes[i][:120]) for i in range(0, min(len(hexes), 2000), 500)]
+    res["violations"] = res["violations"][:6]
+    # known finding K1: unbounded recursion depth
+    for k in known.get("known", []):
+        if k.get("property") == pid and k.get("probe") == "k1probe":
+            rc, out = _run("ulimit -v 12000000; %s k1probe -levels %d" % (corr, k.get("levels", 8000000)), GOENV, 600)
+            if "stack overflow" in out or "goroutine stack exceeds" in out:
+                res["known_lines"].append("KNOWN-FINDING: property=%s %s" % (pid, k["what"]))
+            res["k1_probe"] = out.strip().splitlines()[-1][:200] if out.strip() else ""
+    return res
